@@ -442,6 +442,14 @@ func c12Scenarios(thorough bool) []string {
 	add("NS:2|NS:5")
 	add("NS:2:24|NS:2:12")
 	add("NS:6:15|NS:6:15|NS:3:24")
+	// a call whose source breaks down in the middle, then (and meanwhile) calls that succeed: what the
+	// failing path leaves behind (a buffer parked twice, a lock not released) meets overlapping calls
+	add("NS:2:12:F,NS:2|NS:5")
+	add("NS:2:24:F|NS:2:24,NS:5")
+	if thorough {
+		add("NS:2:12:F,NS:2|NS:5|NS:6:15")
+		add("NS:3:15:F,NS:3:15:F,NS:3|NS:3:15,NS:3:24")
+	}
 	// the package's own default source used concurrently (it must be safe for concurrent use)
 	add("ND:2|ND:5")
 	add("ND:2:24|ND:2:24")
@@ -508,6 +516,11 @@ func runC12(tier string) int {
 	for _, op := range ops {
 		if strings.HasPrefix(op, "NS:") {
 			baseline[op] = "NS-consistent"
+			if strings.HasSuffix(op, ":F") {
+				// the drawer's source breaks down in the middle of this call: failing closed with the
+				// source's error is what the call does alone
+				baseline[op] = "NS-ERROR:unexpected EOF"
+			}
 			continue
 		}
 		hs = append(hs, []string{op})
